@@ -365,7 +365,9 @@ impl Ord for Uri {
 
 impl Hash for Uri {
 	fn hash<H: hash::Hasher>(&self, state: &mut H) {
-		self.parts().hash(state)
+		// Must agree with the `Hash` implementation of the reference type,
+		// since this type implements `Borrow` to it.
+		self.as_uri_ref().hash(state)
 	}
 }
 
